@@ -1,6 +1,6 @@
 #!/bin/bash
-# usage: confirm_all.sh A|B  -- confirm every finished, not yet confirmed change, 4 at a time
-X=$1
-ls -d /tmp/mutout6/C*/$X | while read d; do
+# usage: seed_confirm_all.sh <round> A|B  -- confirm every finished, not yet confirmed change of /tmp/mutout<round>, 4 at a time (tools/confirm_mut.py)
+N=$1; X=$2
+ls -d /tmp/mutout$N/C*/$X | while read d; do
   [ -f $d/meta.json ] && [ -f $d/patch.diff ] && [ ! -f $d/confirm.json ] && echo $d
 done | xargs -P 4 -I{} sh -c 'CONFIRM_WT=/tmp/mutconfirm_wt_$(basename $(dirname {}))$(basename {}) python3 /verif/tools/confirm_mut.py {} 2>&1 | tail -1'
